@@ -40,7 +40,7 @@ Record facet_result := {
   fr_other : Z
 }.
 
-Definition zsum (l : list Z) : Z := fold_right Z.add 0 l.
+Fixpoint zsum (l : list Z) : Z := match l with [] => 0 | x :: l' => x + zsum l' end.
 
 (* ---------- the count map (Go: map[string]int, m[k] = m[k] + 1) ---------- *)
 
